@@ -200,7 +200,36 @@ def unit_footprint(U):
                                 replay=replay)
 
 
-UNITS = [("footprint", unit_footprint)]
+def unit_bounded_reader_while_open(U):
+    """Bounded: a finished database can be read by others while the process that built it still holds the FeatureDB that
+    create_db returned - for every importer path (GFF3; GTF with inference; GTF with both inferences disabled)"""
+    import tempfile, os, shutil, sqlite3, warnings
+    fails, cases = [], 0
+    gtf = 'c\ts\texon\t1\t9\t.\t+\t.\tgene_id "g"; transcript_id "t";\nc\ts\texon\t20\t30\t.\t+\t.\tgene_id "g"; transcript_id "t";\n'
+    gff = "c\ts\tgene\t1\t30\t.\t+\t.\tID=g\nc\ts\texon\t1\t9\t.\t+\t.\tID=e;Parent=g\n"
+    d = tempfile.mkdtemp()
+    try:
+        for name, text, kw, n in (("gff3", gff, {}, 2), ("gtf", gtf, {}, 4), ("gtf, inference disabled", gtf, {"disable_infer_genes": True, "disable_infer_transcripts": True}, 2)):
+            cases += 1
+            path = os.path.join(d, "x%d.db" % cases)
+            with warnings.catch_warnings():
+                warnings.simplefilter("ignore")
+                held = gffutils.create_db(text, path, from_string=True, **kw)          # kept alive on purpose
+            try:
+                other = sqlite3.connect(path, timeout=0.3)
+                got = other.execute("SELECT count() FROM features").fetchone()[0]
+                other.close()
+                via = gffutils.FeatureDB(path).count_features_of_type()
+            except Exception as e:
+                got = via = "raised %r" % (e,)
+            if got != n or via != n:
+                fails.append({"case": {"import": name, "importer's FeatureDB": "still alive"}, "expected": n, "observed": [got, via]})
+            del held
+    finally:
+        shutil.rmtree(d, ignore_errors=True)
+    U.bounded_result("C20.bounded.reader_while_open", "a second connection reads the finished file while the importing process still holds its FeatureDB", "3 importer paths", cases, fails)
+
+UNITS = [("bounded.reader_while_open", unit_bounded_reader_while_open), ("footprint", unit_footprint)]
 try:
     from standins import C20 as _S
     UNITS = UNITS + list(_S.UNITS)
